@@ -171,9 +171,11 @@ def show_id(ids):
 
 # ---- generation ----------------------------------------------------------------------
 def gen_segs(rng, dirty, is_sub, maxhash=2):
-    """segments of one name.  clean: letters only in literals.  dirty: digits in
+    """segments of one name.  clean: letters only in literals.  dirty = 'digits': clean
+    shapes, digits among the literal characters.  dirty = True: digits in
     literals, '#0', adjacent enumerations, a sub-tree name without '/'."""
-    alph = "abc" if not dirty else "abc01"
+    alph = "abc" if not dirty else ("abc12" if dirty == 'digits' else "abc01")
+    dirty = dirty is True
     segs = []
     ncomp = rng.choice([1, 1, 1, 2, 2, 3]) if is_sub or rng.random() < 0.3 else 1
     nh = 0
@@ -225,6 +227,7 @@ def gen_tree(rng, depth, dirty, maxports=5, leaf_maxhash=1):
     n = rng.randint(1, maxports)
     t = []
     pool = []
+    flavour, dirty = dirty, dirty is True
     for _ in range(n):
         is_sub = depth > 1 and rng.random() < 0.4
         if pool and rng.random() < (0.35 if dirty else 0.05):
@@ -237,7 +240,7 @@ def gen_tree(rng, depth, dirty, maxports=5, leaf_maxhash=1):
             elif r < 0.6 and segs[-1][0] == 'L' and len(segs[-1][1]) > 1:
                 segs[-1] = ('L', segs[-1][1][:-1])
         else:
-            segs = gen_segs(rng, dirty, is_sub, maxhash=(2 if is_sub else leaf_maxhash))
+            segs = gen_segs(rng, flavour, is_sub, maxhash=(2 if is_sub else leaf_maxhash))
         if is_sub and not (dirty and rng.random() < 0.2):
             if segs[-1][0] != 'L' or not segs[-1][1].endswith(b"/"):
                 if segs[-1][0] == 'L':
@@ -246,7 +249,7 @@ def gen_tree(rng, depth, dirty, maxports=5, leaf_maxhash=1):
                     segs.append(('L', b"/"))
         pool.append(list(segs))
         args = rng.choice([b"", b"", b":i", b"::i", b":", b":T:F"]) if not is_sub else b""
-        sub = gen_tree(rng, depth - 1, dirty, max(2, maxports - 1), leaf_maxhash) if is_sub else None
+        sub = gen_tree(rng, depth - 1, flavour, max(2, maxports - 1), leaf_maxhash) if is_sub else None
         t.append(mk_port(segs, args, gen_meta(rng), sub))
     return t
 
@@ -255,7 +258,7 @@ def gen_tree(rng, depth, dirty, maxports=5, leaf_maxhash=1):
 # (a line-by-line mirror of coq/Ports/NamesOk.v; the driver prints the value the
 #  extracted function gives, the plug-ins compare)
 def _litchar(c):
-    return 0 < c < 127 and c not in b":{*#" and not (48 <= c <= 57)
+    return 0 < c < 127 and c not in b":{*#"
 
 def _segs_ok(segs):
     for i, (k, v) in enumerate(segs):
@@ -265,8 +268,9 @@ def _segs_ok(segs):
         else:
             if not (0 <= v < 10**9):
                 return False
-            if i + 1 < len(segs) and segs[i + 1][0] == 'E':
-                return False
+            if i + 1 < len(segs):
+                if segs[i + 1][0] == 'E' or segs[i + 1][1][:1].isdigit():
+                    return False
     return True
 
 def _args_ok(a):
@@ -333,8 +337,21 @@ def _sub_ok(segs, args):
         return False
     return _comps_ok(split_components(segs))
 
+def _shape(s):
+    """every maximal digit run replaced by '#'"""
+    out, run = b"", False
+    for c in s:
+        if 48 <= c <= 57:
+            if not run:
+                out += b"#"
+            run = True
+        else:
+            out += bytes([c]); run = False
+    return out
+
 def _key(segs):
-    return b"".join(v if k == 'L' else b"#" for k, v in segs)
+    """the path part with every '#N' and every digit run of the literal text replaced by '#'"""
+    return _shape(b"".join(v if k == 'L' else b"0" for k, v in segs))
 
 def _table_keys_free(t):
     ks = []
